@@ -83,12 +83,15 @@ LEVEL = {
             "narrow: upgrade/downgrade interleavings and DashMap linearizability as behaviours are not decided"),
 }
 
-NOT_APPLICABLE = {
-    "C09": "DFS exhaustiveness/uniqueness is index arithmetic over a run-time stack for all tree shapes; no ownership/ordering/dataflow "
-           "rule distinguishes a correct DFS from an off-by-one one (its fixed-data-stream clause is decided under C01.R3, its determinism clause under C10.R1)",
-    "C11": "priority discipline, change-point range and the 1/(n*k^(d-1)) bound are numeric/statistical claims over runtime values; "
-           "the determinism clause is decided by C10.R1, which also runs over PctScheduler",
-}
+NOT_APPLICABLE = {}
+TECH["C09"] = "MIR type facts + dataflow: fixed data stream, stop-condition guards, shape of the backtracking step (structural clauses only)"
+TECH["C11"] = "MIR dataflow/guard-dependence: min_by_key over the offered slice, guards and key of every priority write, change-point sampling"
+LEVEL["C09"] = ("NARROW: decides only that every DFS execution uses the same fixed data stream, that new_execution stops exactly under budget / exhausted-stack tests, "
+                "and that a backtracking step selects the successor of the previous choice and truncates deeper levels.",
+                "exhaustiveness and uniqueness of the enumeration (index arithmetic over a run-time stack: `was_last` flags, off-by-one) are NOT decided by any static rule in reach")
+LEVEL["C11"] = ("NARROW: decides only that PCT returns the minimum-priority task of the whole offered slice, that priorities are rewritten only for new tasks or under "
+                "(change point || yield) for the task that was running, that change points are sampled from the seeded rng with count <= depth-1, and the iteration budget.",
+                "the strict-priority behaviour over whole executions, the change-point range and the 1/(n*k^(d-1)) probability bound are NOT decided (numeric/statistical)")
 
 
 def main():
